@@ -35,6 +35,7 @@ import (
 	"github.com/aws/aws-sdk-go-v2/service/s3"
 	"github.com/aws/aws-sdk-go-v2/service/s3/types"
 	"github.com/aws/smithy-go"
+	smithyhttp "github.com/aws/smithy-go/transport/http"
 	"github.com/versity/versitygw/auth"
 	"github.com/versity/versitygw/backend"
 	"github.com/versity/versitygw/s3err"
@@ -369,7 +370,7 @@ func (s *S3Proxy) CreateMultipartUpload(ctx context.Context, input s3response.Cr
 		RequestPayer:              input.RequestPayer,
 		ServerSideEncryption:      input.ServerSideEncryption,
 		StorageClass:              input.StorageClass,
-	})
+	}, rawExpires(input.Expires, expires))
 	if err != nil {
 		return s3response.InitiateMultipartUploadResult{}, handleError(err)
 	}
@@ -803,7 +804,7 @@ func (s *S3Proxy) PutObject(ctx context.Context, input s3response.PutObjectInput
 	}, s3.WithAPIOptions(
 		v4.SwapComputePayloadSHA256ForUnsignedPayloadMiddleware,
 		removeDefaultContentType,
-	))
+	), rawExpires(input.Expires, expire))
 	if err != nil {
 		return s3response.PutObjectOutput{}, handleError(err)
 	}
@@ -1147,8 +1148,19 @@ func (s *S3Proxy) CopyObject(ctx context.Context, input s3response.CopyObjectInp
 			ServerSideEncryption:           input.ServerSideEncryption,
 			StorageClass:                   input.StorageClass,
 			TaggingDirective:               input.TaggingDirective,
-		})
+		}, rawExpires(input.Expires, expires))
 	return out, handleError(err)
+}
+
+// rawExpires passes an Expires value that is not an RFC1123 date on as the
+// client sent it: the typed sdk field only takes a time, the endpoint stores
+// and returns the header verbatim.
+func rawExpires(value *string, parsed *time.Time) func(*s3.Options) {
+	return func(o *s3.Options) {
+		if value != nil && parsed == nil {
+			o.APIOptions = append(o.APIOptions, smithyhttp.SetHeaderValue("Expires", *value))
+		}
+	}
 }
 
 // encodeCopySource url-encodes a copy source ("bucket/key[?versionId=id]")
